@@ -847,6 +847,10 @@ class SymExec(object):
             return v
         if isinstance(n, ast.Await):
             return E(n.value)
+        if isinstance(n, ast.Yield):
+            return ('yield', E(n.value) if n.value is not None else ('const', None))
+        if isinstance(n, ast.YieldFrom):
+            return ('yieldfrom', E(n.value))
         return ('expr', src(n))
 
     # -- interprocedural helpers ---------------------------------------------
